@@ -43,6 +43,7 @@ def install(ex, inserts):
 
     def sl_split(ex_, st, args, dest_ty, func, where):
         s = deep(args[0], st)
+        ex_.oblig("model-bound", where, "listing longer than the model capacity %d" % CAP, z3.And(st.guard, s.len > CAP))
         return VStruct("ByteSplit", [s, VInt(I(0), "usize"), VBool(z3.BoolVal(False)), args[1]])
 
     def sl_split_next(ex_, st, args, dest_ty, func, where):
@@ -215,6 +216,10 @@ def validate(ctx, R, seed, count):
 
 
 def obligation(ctx, R, prover, pid="C19", size_digits=2, sec_digits=2, path_len=2):
+    global CAP
+    # capacity of the text-routine models: the longest listing of this instance (the thorough instance is 26 bytes long; with the
+    # fixed capacity 24 the models did not see its last separator and the obligation ended INCONCLUSIVE - a machinery bug)
+    CAP = max(24, 8 + size_digits + 1 + 1 + sec_digits + 1 + 2 + 1 + 2 + path_len + 1 + 2)
     ins = []
     ex = mk_ex(ctx, ins, K=6)
     first = "7\t8\t./x\0"
